@@ -214,6 +214,61 @@ def worker(job):
     return st
 
 
+def long_list_worker(job):
+    """A -files0-from list of more than a mebibyte (hundreds of thousands of names, from a file and from standard input): every name is
+    a starting point, in list order, none dropped at any size boundary."""
+    k, sizes, seed = job
+    st = Stats()
+    rng = common.rng_for(seed, "C18long", k)
+    base = common.mkscratch("C18l%d" % k)
+    sb = os.path.join(base, "sb")
+    os.makedirs(sb)
+    try:
+        build(sb)
+        cwd = os.path.join(sb, "inner")
+        pool = [r.replace("ABS", sb) for r in DIR_SPELLINGS + FILE_SPELLINGS + ONLY_FILES0] + ["missing", "d/missing"]
+        for target in sizes:
+            roots, size = [], 0
+            while size < target:
+                r = rng.choice(pool)
+                roots.append(r)
+                size += len(os.fsencode(r)) + 1
+            data = b"".join(os.fsencode(r) + b"\0" for r in roots)
+            via = ["file", "stdin"][(k + len(roots)) % 2]
+            lf = os.path.join(base, "long.lst")
+            if via == "file":
+                with open(lf, "wb") as f:
+                    f.write(data)
+                args, stdin = [common.FIND, "-files0-from", lf, "-maxdepth", "0", "-print0"], None
+            else:
+                args, stdin = [common.FIND, "-files0-from", "-", "-maxdepth", "0", "-print0"], data
+            rc, out, err, to = common.run_cmd(args, cwd=cwd, env=common.clean_env(), timeout=600, input=stdin)
+            got = [os.fsdecode(x) for x in out.split(b"\0")[:-1]]
+            want = [r for r in roots if os.path.lexists(os.path.join(cwd, r))]
+            nmiss = len(roots) - len(want)
+            st.inc("evaluations")
+            st.inc("starting_points_from_lists_over_1MiB", len(roots))
+            st.inc("lists_over_1MiB_via_" + via)
+            st.add("distinct", ("long-list", via, len(data)))
+            rp = {"generator": "lib/c18.py long_list_worker", "seed": seed, "k": k, "bytes": len(data), "names": len(roots), "via": via}
+            problems = []
+            if to or rc in (101, 134, -6, -11):
+                problems.append("crashed or hung (exit %r, stderr %r)" % (rc, err[-200:]))
+            elif got != want:
+                i = 0
+                while i < min(len(got), len(want)) and got[i] == want[i]:
+                    i += 1
+                problems.append("%d starting points evaluated, expected %d; first difference at #%d (list offset about %d bytes): %r vs %r"
+                                % (len(got), len(want), i, sum(len(os.fsencode(r)) + 1 for r in want[:i]), got[i:i + 2], want[i:i + 2]))
+            if not problems and ((rc != 0) != (nmiss > 0)):
+                problems.append("exit status %r with %d missing names" % (rc, nmiss))
+            if problems:
+                st.violate("wrong-output", None, {"args": ["find"] + args[1:], "list_bytes": len(data), "names": len(roots), "via": via, "problems": problems}, rp)
+    finally:
+        common.force_rmtree(base)
+    return st
+
+
 def run(ctx):
     ctx.rule = ("lists of 0-5 starting points drawn from 38 spellings of directories (d ./d d/ d// d/. x/../d absolute .//d ../a . ./ .. links, "
                 "names with blanks / multi-byte / a lone '-' / whitespace-only and newline-only names / names starting with '(' '!' ',' ')'), 9 of non-directories (files, links, dangling), 5 missing ones, duplicates and nested "
@@ -226,6 +281,10 @@ def run(ctx):
     nw = common.NCPU
     n = ctx.scale(1600, 640000)
     ctx.pmap(worker, [(k, n // nw, ctx.seed) for k in range(nw)])
+    MIB = 1 << 20
+    sizes = [[MIB + 5000], [MIB - 3, MIB, MIB + 1], [3 * MIB]] if ctx.quick else \
+        [[MIB + 5000], [MIB - 3, MIB, MIB + 1], [3 * MIB], [2 * MIB - 1, 2 * MIB + 7], [8 * MIB], [16 * MIB + 11], [MIB // 2, 5 * MIB], [65536 * 17]]
+    ctx.pmap(long_list_worker, [(k, sz, ctx.seed) for k, sz in enumerate(sizes)])
     for key in ("shape:none", "shape:operands", "shape:files0-file", "shape:files0-stdin", "shape:equiv", "files0_no_final_nul", "files0_final_nul",
                 "files0_with_empty_names", "files0_with_dash_or_newline_names", "runs_with_missing_starting_point", "equivalence_pairs",
                 "option_terminator_and_no_starting_point", "runs_with_an_empty_string_operand", "files0_from_a_non_regular_file"):
